@@ -14,7 +14,7 @@ def view_slots(start, slots):
     return [[start + i, s[0]] for i, s in enumerate(slots) if s]
 
 
-async def _run(product, thermostats, ops):
+async def _run(product, thermostats, ops, uid_at=None, gap=0):
     from pyplumio.devices.ecomax import EcoMAX
     from pyplumio.frames import responses as R
     from pyplumio.helpers.parameter import Parameter
@@ -32,10 +32,22 @@ async def _run(product, thermostats, ops):
             await asyncio.gather(*pending, *subs, return_exceptions=True)
         await asyncio.sleep(0)
 
-    dev.handle_frame(R.UIDResponse(message=bytearray(PI.payload("responses/uid.json", UID[product]))))
-    await settle()
+    if uid_at is not None:
+        # the product information arrives late: the responses before it are handled while the product is unknown (their handlers
+        # wait for it), so settling is done by letting (virtual) time pass, never by waiting for the handler tasks
+        async def settle():  # noqa: F811
+            await asyncio.sleep(0.05)
+    else:
+        dev.handle_frame(R.UIDResponse(message=bytearray(PI.payload("responses/uid.json", UID[product]))))
+        await settle()
     await dev.dispatch("thermostats_available", thermostats)
-    for op in ops:
+    for k, op in enumerate(list(ops) + [None]):
+        if uid_at is not None and k == min(uid_at, len(ops)):
+            await asyncio.sleep(gap)
+            dev.handle_frame(R.UIDResponse(message=bytearray(PI.payload("responses/uid.json", UID[product]))))
+            await settle()
+        if op is None:
+            break
         cls = {0: R.EcomaxParametersResponse, 1: R.MixerParametersResponse, 2: R.ThermostatParametersResponse,
                3: R.SchedulesResponse}[op["kind"]]
         try:
@@ -43,6 +55,8 @@ async def _run(product, thermostats, ops):
         except (IndexError, KeyError, ValueError):
             pass        # the response is refused as a whole (e.g. a thermostat block longer than the table): it must leave no trace
         await settle()
+    if uid_at is not None:
+        await asyncio.sleep(1)
     out = []
 
     async def describe(tag, sub, owner):
@@ -91,7 +105,7 @@ class C07(Prop):
     prop_file = "Props/C07.v"
     rule = ("both product types x ecoMAX parameter responses with arbitrary start / count / undefined holes, including positions up to ten "
             "beyond the end of the table, x mixer blocks for 0..4 mixers x thermostat blocks for 0..2 thermostats (1- and 2-byte slots, holes) x "
-            "repeated responses (create then update); the payloads are rendered by the Coq spec encoders and fed to a real EcoMAX through "
+            "repeated responses (create then update), also with the product information arriving only after some of them (`late-product`, pauses up to minutes); the payloads are rendered by the Coq spec encoders and fed to a real EcoMAX through "
             "handle_frame; then for EVERY named parameter of the device, its mixers and thermostats the request built by create_request() is "
             "compared with the position its name has in the table.  Non-trivial = at least one parameter created from a response with a hole "
             "or a non-zero start; distinct by case content.")
@@ -151,6 +165,11 @@ class C07(Prop):
                                                    [self._slots(rng, per, size_of, hole_p=hp) for _ in range(nth)]]})
             if ops:
                 cases.append({"kind": "random", "product": product, "thermostats": nth, "ops": ops})
+                if rng.random() < 0.3:
+                    # the same history with the product information (UID response) arriving only after some of the responses,
+                    # and after a pause of up to minutes
+                    cases.append({"kind": "late-product", "product": product, "thermostats": nth, "ops": [dict(o) for o in ops],
+                                  "uid_at": rng.randrange(1, len(ops) + 1), "gap": rng.choice([0, 1, 2.9, 3.1, 5, 30, 300])})
         return cases
 
     def _render(self, c):
@@ -163,7 +182,7 @@ class C07(Prop):
 
     def run_impl(self, c):
         self._render(c)
-        res = vloop.run(_run, c["product"], c["thermostats"], c["ops"])
+        res = vloop.run(_run, c["product"], c["thermostats"], c["ops"], c.get("uid_at"), c.get("gap", 0))
         t = G.tables()
         tabs = {0: t["ecomax_params_p" if c["product"] == 0 else "ecomax_params_i"],
                 1: t["mixer_params_p" if c["product"] == 0 else "mixer_params_i"], 2: t["thermostat_params"],
